@@ -1134,70 +1134,89 @@ def _stat(key, sub, n=1):
 
 
 def collect(case, obs):
+  """Coverage is measured on the case and on the *reference* (local) pass, so that a change of the code under
+  test cannot hide a branch from the generator-quality gate; results of the remote pass are histogrammed only."""
   _stat('kind', case['kind'])
   _stat('threads', len(case['threads']))
-  for ops, rem in zip(case['threads'], obs['remote']):
+  if not STATS.get('failed'):
+    for w in _failures(case, obs):
+      if finding(case, w) is None:
+        STATS['failed'] = {'1': 1}
+        break
+  for ops, rem, loc in zip(case['threads'], obs['remote'], obs['local']):
     shut = False
     exhausted = set()
-    for op, r in zip(ops, rem):
+    for op, r, l in zip(ops, rem, loc):
       k = op['op']
       if k == 'shutdown':
         shut = True
       name = k if k != 'get' else 'get:' + op['prog']['p']
       _stat('op', name)
-      if 'fate' in op or 'alive0' in op:
+      faulty = 'fate' in op or 'alive0' in op
+      if faulty:
         _stat('fault', op.get('fate', 'dead') + ('' if op.get('alive_err', True) else '+not-alive'))
       res = 'skip' if r.get('skip') else 'err:' + r['err']['kind'] if 'err' in r else \
           'remote' if 'ok' in r and 'remote' in r['ok'] else 'value' if 'ok' in r else k
       _stat('result', res)
-      if k == 'get' and op['prog']['p'] in ('next', 'qget') and 'err' in r and r['err']['kind'] == 'StopIteration':
+      lerr = l.get('err', {}).get('kind')
+      if k == 'get' and op['prog']['p'] in ('next', 'qget') and lerr == 'StopIteration':
         key = (op['prog']['p'], op['prog']['h'])
         _stat('branch', 'StopIteration again after exhaustion' if key in exhausted else 'end of iteration')
         exhausted.add(key)
-      if k == 'chain' and not r.get('skip'):
-        _stat('branch', 'chain ok' if 'ok' in r else 'chain raises')
+      if k == 'chain' and 'py' in l:
+        _stat('branch', 'chain ok' if 'ok' in l['py'] else 'chain raises')
         _stat('chain length', len(op['links']))
-      if shut and 'err' in r and r['err']['kind'] == 'TimeoutError' and k in ('get', 'chain') and 'fate' not in op:
-        _stat('branch', 'TimeoutError after shutdown')
-      if shut and 'ok' in r:
+      if shut and k in ('get', 'chain') and not faulty and 'err' in l and not l.get('trace'):
+        _stat('branch', 'failing call after shutdown')
+      if shut and k in ('get', 'chain') and not faulty and 'ok' in l:
         _stat('branch', 'value after shutdown')
-      if 'refused' in r:
-        _stat('branch', 'init_iterator refused')
-      if r.get('accepted'):
-        _stat('branch', 'init_iterator accepted')
-      if 'ok' in r and 'remote' in r['ok']:
+      if k == 'init_iterator':
+        _stat('branch', 'init_iterator after shutdown' if shut else 'init_iterator before shutdown')
+      if 'ok' in l and 'remote' in l['ok']:
         _stat('branch', 'remote handle')
-      if 'ok' in r and 'list' in r['ok']:
+      if 'ok' in l and 'list' in l['ok']:
         _stat('branch', 'queue batch')
+      if l.get('trace'):
+        _stat('branch', 'tracing error')
       if k == 'call':
-        _stat('branch', 'raw reply' + (' (handler raised)' if 'raised' in r else ''))
+        _stat('branch', 'raw reply' + (' (handler raises)' if 'err' in l and not op['flags'].get('return_exception')
+                                       else ''))
+        if isinstance(l.get('payload'), dict) and isinstance(l['payload'].get('v'), dict) and \
+            set(l['payload']['v']) == {'h'}:
+          _stat('branch', 'raw reply is a handle (bytes inspected)')
 
 
 def nontrivial(case, obs):
   collect(case, obs)
   n_eval, interesting = 0, False
-  for ops, rem in zip(case['threads'], obs['remote']):
-    for op, r in zip(ops, rem):
-      if 'ok' in r or 'err' in r or 'payload' in r:
+  for ops, loc in zip(case['threads'], obs['local']):
+    for op, l in zip(ops, loc):
+      if 'ok' in l or 'err' in l or 'payload' in l:
         n_eval += 1
-      if ('ok' in r and 'remote' in r['ok']) or 'err' in r:
+      if ('ok' in l and 'remote' in l['ok']) or 'err' in l:
         interesting = True
   return n_eval >= 2 and interesting
 
 
 def extra(ctx):
   for k, h in STATS.items():
+    if k == 'failed':
+      continue
     for sub, n in h.items():
       ctx.count(k, sub, n)
   need = ['end of iteration', 'StopIteration again after exhaustion', 'chain ok', 'chain raises',
-          'TimeoutError after shutdown', 'value after shutdown', 'init_iterator refused', 'remote handle',
-          'queue batch', 'raw reply', 'raw reply (handler raised)']
+          'failing call after shutdown', 'value after shutdown', 'init_iterator after shutdown', 'remote handle',
+          'queue batch', 'raw reply', 'raw reply (handler raises)', 'raw reply is a handle (bytes inspected)',
+          'tracing error']
   missing = [b for b in need if not STATS.get('branch', {}).get(b)]
   for f in ('deadline', 'deadline+not-alive', 'deadline_after', 'app_error', 'die', 'dead'):
     if not STATS.get('fault', {}).get(f):
       missing.append('fault ' + f)
-  if missing:
-    raise InfraError(f'C14 generator did not exercise: {missing}')
+  if missing and not STATS.get('failed'):
+    # (with an oracle failure in hand the verdict is a violation, not a generator-quality problem)
+    import sys
+    raise getattr(sys.modules.get('__main__'), 'InfraError', InfraError)(
+        f'C14 generator did not exercise: {missing}')
 
 
 def finding(case, what):
